@@ -286,7 +286,10 @@ func (b *ByteSlice) GetSlice(slice Slice) (Object, *Error) {
 	if err != nil {
 		return nil, NewError(err)
 	}
-	return NewByteSlice(b.value[start:stop]), nil
+	// copy, as List.GetSlice does: a slice must not share its bytes with the original
+	result := make([]byte, stop-start)
+	copy(result, b.value[start:stop])
+	return NewByteSlice(result), nil
 }
 
 func (b *ByteSlice) SetItem(key, value Object) *Error {
